@@ -134,6 +134,9 @@ func spdxNode(r *rand.Rand, id string, p float64, sweep int) *sbom.Node {
 				t = spdxNativeRefs[sweep%len(spdxNativeRefs)]
 			}
 			ref := &sbom.ExternalReference{Type: t, Url: "https://example.com/ref/" + fmt.Sprint(r.Intn(5))}
+			if r.Intn(6) == 0 {
+				ref.Url = "" // a reference without locator cannot be written: it alone is left out, nothing after it
+			}
 			if r.Intn(2) == 0 {
 				ref.Comment = txt(r)
 			}
@@ -159,7 +162,7 @@ func spdxNode(r *rand.Rand, id string, p float64, sweep int) *sbom.Node {
 	if maybe(r, p) {
 		n.Suppliers = []*sbom.Person{{Name: pick(r, []string{"ACME Inc", "Jane Doe", "Ünï Org", "ACME (UK) Ltd", "Smile Corp. :)", "Open (source"}), IsOrg: r.Intn(2) == 0}}
 		if r.Intn(3) == 0 {
-			n.Suppliers[0].Email = pick(r, []string{"sbom@acme.example", "jane.doe+sbom@example.org"})
+			n.Suppliers[0].Email = pick(r, []string{"sbom@acme.example", "jane.doe+sbom@example.org", "jane..doe@example.com", "a@b@c", "build.@acme.example"})
 		}
 	}
 	spdxNoise(r, n, p)
@@ -368,7 +371,12 @@ func genCDXDoc(r *rand.Rand, i int, v15 bool) *sbom.Document {
 			if (i+q)%7 == 6 {
 				t = sbom.DocumentType_DECOMISSION
 			}
-			d.Metadata.DocumentTypes = append(d.Metadata.DocumentTypes, &sbom.DocumentType{Type: t.Enum()})
+			dt := &sbom.DocumentType{Type: t.Enum()}
+			if (i+q)%3 == 0 { // a typed entry may carry a description as well: the type is what must survive
+				desc := "described " + fmt.Sprint(q)
+				dt.Description = &desc
+			}
+			d.Metadata.DocumentTypes = append(d.Metadata.DocumentTypes, dt)
 		}
 	}
 	return d
